@@ -953,10 +953,10 @@ impl MemWorld {
                 }
             }
             // guards
-            if r.ptr % page != 0 {
-                self.viol(out, "c14.guard_before", site(&[("container", &r.kind), ("len_class", lc)]), format!("data pointer is not page aligned (offset {})", r.ptr % page), subject, Some(si));
-            } else {
-                let g = shim::probe_rights(r.ptr - 1);
+            {
+                // the page just before the first page that holds data (the data need not start
+                // at a page boundary: an allocator may right-align it against the aft guard)
+                let g = shim::probe_rights(r.ptr / page * page - 1);
                 out.probe("probe.guard");
                 if g.r || g.w {
                     self.viol(out, "c14.guard_before", site(&[("container", &r.kind), ("len_class", lc)]), format!("the page before the data of a {}-byte {} is accessible ({})", r.len, r.kind, g.name()), subject, Some(si));
@@ -1705,23 +1705,25 @@ impl World for MemWorld {
                     // starts no more than one page beyond round_up(size)
                     let page = self.page;
                     let lc = len_class(*size, page);
-                    if ptr % page != 0 || { let g = shim::probe_rights(ptr - 1); g.r || g.w } {
-                        out.violate("C14", "c14.guard_before", site(&[("container", "allocator"), ("len_class", lc)]), format!("allocate({}): data not page aligned or the page before it is accessible", size));
+                    if { let g = shim::probe_rights(ptr / page * page - 1); g.r || g.w } {
+                        out.violate("C14", "c14.guard_before", site(&[("container", "allocator"), ("len_class", lc)]), format!("allocate({}): the page before the first data page is accessible", size));
                     }
-                    let round_up = (*size + page - 1) / page * page;
-                    let mut off = 0usize;
+                    // first page boundary at or after the end of the allocation
+                    let first_page = ptr / page * page;
+                    let end_up = (ptr + *size + page - 1) / page * page;
+                    let mut a = first_page;
                     let mut found: Option<usize> = None;
-                    while off <= round_up + 2 * page {
-                        let g = shim::probe_rights(ptr + off);
+                    while a <= end_up + 2 * page {
+                        let g = shim::probe_rights(a);
                         if !g.r && !g.w {
-                            found = Some(off);
+                            found = Some(a);
                             break;
                         }
-                        off += page;
+                        a += page;
                     }
-                    let ok = matches!(found, Some(o) if o >= round_up && o <= round_up + page);
+                    let ok = matches!(found, Some(o) if o >= end_up && o <= end_up + page);
                     if !ok {
-                        out.violate("C14", "c14.guard_after", site(&[("container", "allocator"), ("len_class", lc)]), format!("allocate({}): first inaccessible page after the data is at offset {:?}, expected within [{}, {}]", size, found, round_up, round_up + page));
+                        out.violate("C14", "c14.guard_after", site(&[("container", "allocator"), ("len_class", lc)]), format!("allocate({}): first inaccessible page after the data starts {:?} bytes after the data pointer, expected within [{}, {}]", size, found.map(|f| f - ptr), end_up - ptr, end_up + page - ptr));
                     }
                     // the data region itself must be usable
                     for a in [ptr, ptr + *size - 1] {
